@@ -205,27 +205,27 @@ type qsim struct {
 	now int64
 
 	// sent-packet handler
-	hist       []*spkt
-	first      int64 // packet number of hist[0]
-	nextPN     int64
-	nextSkip   int64
-	skipPeriod int64
-	skipped    []int64
-	bif        int64
-	nOut       int // "outstanding": ack-eliciting, not an MTU probe
-	nTracked   int
+	hist                []*spkt
+	first               int64 // packet number of hist[0]
+	nextPN              int64
+	nextSkip            int64
+	skipPeriod          int64
+	skipped             []int64
+	bif                 int64
+	nOut                int // "outstanding": ack-eliciting, not an MTU probe
+	nTracked            int
 	nTrackedBeforeEvent int // packets tracked when the processing that led to the latest OnCongestionEventEx began
 	trackedPre          int
-	largestAck int64
-	largestAckSent int64
-	lossTime   int64
-	lastElic   int64
-	ptoCount   uint
-	probesToSend int
-	alarm      int64
-	ackedInfo  []congestion.AckedPacketInfo
-	lostInfo   []congestion.LostPacketInfo
-	ackedUpto  int
+	largestAck          int64
+	largestAckSent      int64
+	lossTime            int64
+	lastElic            int64
+	ptoCount            uint
+	probesToSend        int
+	alarm               int64
+	ackedInfo           []congestion.AckedPacketInfo
+	lostInfo            []congestion.LostPacketInfo
+	ackedUpto           int
 
 	// connection
 	dgram          int64 // maximum packet size the packer uses == the controller's datagram size
@@ -910,18 +910,18 @@ type c12 struct {
 	s *qsim
 	b *bbrSender
 
-	ctl        int64 // datagram size the controller was told (constructor, SetMaxDatagramSize)
-	lastDg     congestion.ByteCount
-	peakTrack  int
-	mode       bbrMode
-	inRec      bool
-	appLim     bool
-	markAt     int64
-	markBytes  int64
-	haveMark   bool
+	ctl         int64 // datagram size the controller was told (constructor, SetMaxDatagramSize)
+	lastDg      congestion.ByteCount
+	peakTrack   int
+	mode        bbrMode
+	inRec       bool
+	appLim      bool
+	markAt      int64
+	markBytes   int64
+	haveMark    bool
 	maxReported int64 // largest packet number that appeared in an acked or lost list
-	bulkSince  int64
-	seenModes  int
+	bulkSince   int64
+	seenModes   int
 }
 
 var c12ModeNames = [...]string{"startup", "drain", "probe-bw", "probe-rtt"}
